@@ -103,7 +103,7 @@ def gen_op(rng: random.Random, cfg: dict, kind: str | None = None) -> dict:
             pos=[rng.random() for _ in range(3)], bogus_attrs=rng.random() < 0.15,
         )
         if inval:
-            op["invalid"] = rng.choice(["exists", "no_time", "no_track", "no_pos", "no_pos"])
+            op["invalid"] = rng.choice(["exists", "no_time", "no_track", "no_pos", "no_pos", "partial_pos"])
     elif kind == "delete_node":
         cls = ["any", "any", "leaf", "root", "div_parent", "div_child", "isolated", "skip_src", "one_child"]
         if fl.get("division_bias"):
@@ -154,6 +154,7 @@ def gen_op(rng: random.Random, cfg: dict, kind: str | None = None) -> dict:
             value=[vm, rng.randrange(16)], track=_track(rng, cfg), force=force, reinvert=reinv,
             target=rng.randrange(64) if rng.random() < 0.6 else None, whole=rng.random() < 0.3,
             order=rng.choice(["fwd", "fwd", "rev"]), frames=rng.choice([1, 1, 1, 2, 3]),
+            big=rng.random() < (0.35 if fl.get("trap") else 0.1),
         )
         if inval:
             op["invalid"] = "two_frames"
